@@ -126,6 +126,8 @@ func checkC05(c *Ctx) {
 	c.failedResultsNotDereferenced()
 	// removing one connection's subscription leaves the others' entries (subscriber and QoS lists stay parallel)
 	c.sremoveContract()
+	// the same for the session store: teardown of one connection must not tear the map under another's
+	c.sessionStoreLocking()
 }
 
 // deferredRecover: a function deferred in the entry block calls recover().
